@@ -92,6 +92,9 @@ func (v DenseReal32Vector) SET(w DenseReal32Vector) {
   }
 }
 func (v DenseReal32Vector) SLICE(i, j int) DenseReal32Vector {
+  if j > len(v) {
+    panic(fmt.Errorf("slice [%d:%d] out of bounds for vector of dimension %d", i, j, len(v)))
+  }
   return v[i:j]
 }
 func (v DenseReal32Vector) APPEND(w DenseReal32Vector) DenseReal32Vector {
@@ -142,6 +145,9 @@ func (v DenseReal32Vector) ReverseOrder() {
   }
 }
 func (v DenseReal32Vector) Slice(i, j int) Vector {
+  if j > len(v) {
+    panic(fmt.Errorf("slice [%d:%d] out of bounds for vector of dimension %d", i, j, len(v)))
+  }
   return v[i:j]
 }
 func (v DenseReal32Vector) Swap(i, j int) {
@@ -205,6 +211,9 @@ func (v DenseReal32Vector) ConstAt(i int) ConstScalar {
   return v[i]
 }
 func (v DenseReal32Vector) ConstSlice(i, j int) ConstVector {
+  if j > len(v) {
+    panic(fmt.Errorf("slice [%d:%d] out of bounds for vector of dimension %d", i, j, len(v)))
+  }
   return v[i:j]
 }
 func (v DenseReal32Vector) AsConstMatrix(n, m int) ConstMatrix {
@@ -219,6 +228,9 @@ func (v DenseReal32Vector) MagicAt(i int) MagicScalar {
   return v.AT(i)
 }
 func (v DenseReal32Vector) MagicSlice(i, j int) MagicVector {
+  if j > len(v) {
+    panic(fmt.Errorf("slice [%d:%d] out of bounds for vector of dimension %d", i, j, len(v)))
+  }
   return v[i:j]
 }
 func (v DenseReal32Vector) ResetDerivatives() {
